@@ -644,6 +644,10 @@ WITNESS_MAP = [
     ("_extract_full_text_from_body/", "docx.body", ["plain", "content-control"], None),
     ("_shared.py::", "odf.element_text", None, None),
     ("_HtmlTreeBuilder.", "html.source", None, None),
+    ("_XhtmlTextExtractor.handle_endtag/ensures#buffered-chunks", "epub.tables", None, None),
+    ("_XhtmlTextExtractor.handle_endtag/ensures#closed-cell", "epub.tables", None, None),
+    ("_XhtmlTextExtractor.", "epub.source", None, None),
+    ("_extract_sheet/block#", "ods.sheet", None, None),
     ("_strip_rtf_full_with_pages/step", "rtf.source", None, None),
     ("_extract_slide/block#slide-text", "odp.slide", None, None),
     ("_extract_slide/block#speaker-notes", "odp.slide", None, ["leaked"]),
